@@ -8,7 +8,7 @@ from fakes import MISSING
 from proto import Other
 
 SCALARS = [
-    None, True, False, 0, 1, -1, 2, 7, 2**70, -(2**63) - 1, 0.0, 1.0, 0.5, -1.5, 2.25, 1e100, 5e-324,
+    None, True, False, 0, 1, -1, 2, 7, 2**70, -(2**63) - 1, 2**1024, -(10**400), 0.0, 1.0, 0.5, -1.5, 2.25, 1e100, 5e-324,
     "", "a", "b", "xyz", "é", "\n\"\\\t", "\U0001f600", "a b", "0",
 ]
 KEYS = ["a", "b", "c", "k", "", "key", "é", "z9"]
@@ -121,6 +121,16 @@ def mutate_value(rng, vg, v, depth=0):
     return w
 
 
+def reorder_keys(rng, v):
+    if isinstance(v, dict):
+        items = [(k, reorder_keys(rng, x)) for k, x in v.items()]
+        rng.shuffle(items)
+        return dict(items)
+    if isinstance(v, list):
+        return [reorder_keys(rng, x) for x in v]
+    return v
+
+
 def attached_path(ns, obj):
     """path of `obj` in its root's in-memory tree (identity walk), or None if detached"""
     root = obj._root if obj._root is not None else obj
@@ -167,6 +177,7 @@ class ProgGen:
         self.p_invalid = p_invalid
         self.invalid_kinds = list(invalid_kinds)
         self.resources = []   # (res, is_dict) pairs the outside writer may rewrite
+        self.roots_only = False
 
     def _is_dict(self, obj):
         return isinstance(obj, self.r.ns.SyncedDict)
@@ -174,6 +185,8 @@ class ProgGen:
     def pick_handle(self):
         roots = ["o%d" % i for i in range(len(self.r.root_objs()))]
         hs = list(range(len(self.r.handles)))
+        if self.roots_only:
+            return self.rng.choice(roots)
         if hs and self.rng.random() < 0.6:
             # mostly handles that are still attached (deeper ones preferred), sometimes stale ones
             if self.rng.random() < 0.85:
@@ -317,4 +330,7 @@ class ProgGen:
         cur = self.r.world.read(res)
         if cur is MISSING or self.rng.random() < 0.15:
             return ("ext", res, self.vg.container(is_dict, 3))
+        if self.rng.random() < 0.25:
+            # the same content with the keys of every dict in another order
+            return ("ext", res, reorder_keys(self.rng, cur))
         return ("ext", res, mutate_value(self.rng, self.vg, cur))
